@@ -233,5 +233,5 @@ pub fn case(tape: &[u8], ctx: &Ctx) -> Outcome {
 }
 
 pub fn property() -> Property {
-    Property { id: "C08", rule: RULE, phases: vec![Phase::Prop { name: "wrapped streams x corruptions x trailer schedules", f: case, quick: 30_000, thorough: 1_000_000, max_tape: 300 }] }
+    Property { id: "C08", rule: RULE, phases: vec![Phase::Prop { name: "wrapped streams x corruptions x trailer schedules", f: case, quick: 250_000, thorough: 3_000_000, max_tape: 300 }] }
 }
